@@ -58,18 +58,6 @@ func runC17(c *Ctx) {
 				"the line format "+format+" is printed for replies that do have an enhanced code: a multi-line SMTPError{550,{5,1,1},\"a\\nb\"} is sent as \"550-a / 550 5.1.1 b\" and the client reads it back as EnhancedCode{0,0,0} with message \"a\\n5.1.1 b\"")
 		})
 	}
-	if f := c.A.Func("toSMTPErr"); f != nil {
-		ok := false
-		allInstrs(f, func(in ssa.Instruction) {
-			if isStaticCall(in, "strings.ReplaceAll") {
-				cc := callCommon(in)
-				if strings.Contains(describe(cc.Args[1]), `"\n"`) && describe(cc.Args[2]) == `"\n"` {
-					ok = true
-				}
-			}
-		})
-		R.Ob("toSMTPErr/strips the code from every further line", c.P.Pos(f.Pos()), ok, "client no longer strips the repeated enhanced code")
-	}
 
 	R.Rule("R-enhcode-parse", "E3", "parseEnhancedCode accepts a token only if it has exactly three dot-separated parts, each of them an integer", 3)
 	if f := c.A.Func("parseEnhancedCode"); f != nil {
@@ -106,77 +94,7 @@ func runC17(c *Ctx) {
 	ruleDataErrorToStatus(c)
 
 	R.Rule("R-client-parse", "E4 + who-may-call", "every reply read by the client goes through readResponse, which converts textproto.Error with toSMTPErr; toSMTPErr copies the code and separates enhanced code and text", 4)
-	for _, f := range c.P.AllFuncs() {
-		if !strings.HasPrefix(funcName(f), "(*Client).") && !strings.HasPrefix(funcName(f), "(*dataCloser).") {
-			continue
-		}
-		allInstrs(f, func(in ssa.Instruction) {
-			if isStaticCall(in, "(*textproto.Reader).ReadResponse") || isStaticCall(in, "(*textproto.Reader).ReadCodeLine") {
-				R.Ob(c.siteKey(in, "ReadResponse only in readResponse"), c.P.InstrPos(in), funcName(f) == "(*Client).readResponse", "reply read outside readResponse: textproto errors are not converted to SMTPError")
-			}
-		})
-	}
-	if f := c.A.Func("(*Client).readResponse"); f != nil {
-		conv := s.Find(f, "call:toSMTPErr")
-		R.Ob("(*Client).readResponse/converts protocol errors", c.P.Pos(f.Pos()), len(conv) == 1, fmt.Sprintf("%d toSMTPErr calls", len(conv)))
-		for _, site := range conv {
-			d := describe(callCommon(site).Args[0])
-			R.Ob(c.siteKey(site, "converts this reply's error"), c.P.InstrPos(site), strings.HasPrefix(d, "assert[*textproto.Error]((*textproto.Reader).ReadResponse("), "toSMTPErr applied to "+d)
-		}
-		// returned error is the converted one or the raw one
-		allInstrs(f, func(in ssa.Instruction) {
-			if r, ok := in.(*ssa.Return); ok && len(r.Results) == 3 {
-				ls := leafSources(returnedValues(r)[2])
-				good := len(ls) >= 1
-				for _, l := range ls {
-					if !(strings.HasPrefix(l, "toSMTPErr(") || strings.HasPrefix(l, "(*textproto.Reader).ReadResponse(")) {
-						good = false
-					}
-				}
-				R.Ob(c.siteKey(in, "returns the reply's error"), c.P.InstrPos(in), good, "readResponse returns "+strings.Join(ls, " | "))
-			}
-		})
-	}
-	if f := c.A.Func("toSMTPErr"); f != nil {
-		codeOK, msgOK := false, false
-		allInstrs(f, func(in ssa.Instruction) {
-			if fld, _, v := storedField(in); fld != nil {
-				switch fld.Name() {
-				case "Code":
-					if describe(v) == "textproto.Error.Code" {
-						codeOK = true
-					}
-				case "Message":
-					if describe(v) == "textproto.Error.Msg" {
-						msgOK = true
-					}
-				}
-			}
-		})
-		R.Ob("toSMTPErr/code copied", c.P.Pos(f.Pos()), codeOK, "SMTPError.Code is not the reply code")
-		R.Ob("toSMTPErr/message defaults to the reply text", c.P.Pos(f.Pos()), msgOK, "SMTPError.Message is not initialised from the reply text")
-		for _, site := range s.Find(f, "st:SMTPError.EnhancedCode") {
-			c.obFactMatch("enhanced code only when it parses", site, `^parseEnhancedCode\(.*\)#1 == nil$`, "enhanced code stored although parsing failed")
-		}
-		// when the enhanced code is split off, the message is what follows it (with the per-line repetitions removed)
-		for _, site := range s.Find(f, "st:SMTPError.EnhancedCode") {
-			site := site
-			c.obAccompanied("message without the enhanced code prefix", f, func(in ssa.Instruction) bool { return in == site }, []string{"st:SMTPError.Message"}, "enhanced code taken from the text but the message keeps it as a prefix")
-		}
-		nMsg := 0
-		for _, site := range s.Find(f, "st:SMTPError.Message") {
-			_, _, v := storedField(site)
-			d := describe(v)
-			if d == "textproto.Error.Msg" {
-				continue
-			}
-			nMsg++
-			ok := strings.Contains(d, `strings.SplitN(textproto.Error.Msg," ",2)[1]`) || strings.Contains(d, `strings.Cut(textproto.Error.Msg," ")#1`)
-			R.Ob(c.siteKey(site, "message is the text after the enhanced code"), c.P.InstrPos(site), ok, "SMTPError.Message becomes "+d)
-			c.obFactMatch("message cut only when the code parses", site, `^parseEnhancedCode\(.*\)#1 == nil$`, "message cut although the first word is not an enhanced code")
-		}
-		R.Ob("toSMTPErr/message separated from the enhanced code", c.P.Pos(f.Pos()), nMsg >= 1, "no store of the message without its enhanced code prefix")
-	}
+	ruleClientParse(c)
 }
 
 // assertedBase: for a load of x.f returns describe(x).
@@ -318,4 +236,95 @@ func ruleNoSMTPErrorMutation(c *Ctx) {
 		})
 	}
 	R.Ob("SMTPError/field stores found", "-", n >= 3, fmt.Sprintf("%d stores", n))
+}
+
+// ruleClientParse (C17 R-client-parse, C16, C18): every reply the client reads becomes either success or an *SMTPError
+// carrying the reply's code, enhanced code and text — dataCloser.Close depends on it to tell a per-recipient verdict
+// from an I/O error and to return the server's verdict.
+func ruleClientParse(c *Ctx) {
+	R := c.R
+	_, s := c.Std()
+	for _, f := range c.P.AllFuncs() {
+		if !strings.HasPrefix(funcName(f), "(*Client).") && !strings.HasPrefix(funcName(f), "(*dataCloser).") {
+			continue
+		}
+		allInstrs(f, func(in ssa.Instruction) {
+			if isStaticCall(in, "(*textproto.Reader).ReadResponse") || isStaticCall(in, "(*textproto.Reader).ReadCodeLine") {
+				R.Ob(c.siteKey(in, "ReadResponse only in readResponse"), c.P.InstrPos(in), funcName(f) == "(*Client).readResponse", "reply read outside readResponse: textproto errors are not converted to SMTPError")
+			}
+		})
+	}
+	if f := c.A.Func("(*Client).readResponse"); f != nil {
+		conv := s.Find(f, "call:toSMTPErr")
+		R.Ob("(*Client).readResponse/converts protocol errors", c.P.Pos(f.Pos()), len(conv) == 1, fmt.Sprintf("%d toSMTPErr calls", len(conv)))
+		for _, site := range conv {
+			d := describe(callCommon(site).Args[0])
+			R.Ob(c.siteKey(site, "converts this reply's error"), c.P.InstrPos(site), strings.HasPrefix(d, "assert[*textproto.Error]((*textproto.Reader).ReadResponse("), "toSMTPErr applied to "+d)
+		}
+		// returned error is the converted one or the raw one
+		allInstrs(f, func(in ssa.Instruction) {
+			if r, ok := in.(*ssa.Return); ok && len(r.Results) == 3 {
+				ls := leafSources(returnedValues(r)[2])
+				good := len(ls) >= 1
+				for _, l := range ls {
+					if !(strings.HasPrefix(l, "toSMTPErr(") || strings.HasPrefix(l, "(*textproto.Reader).ReadResponse(")) {
+						good = false
+					}
+				}
+				R.Ob(c.siteKey(in, "returns the reply's error"), c.P.InstrPos(in), good, "readResponse returns "+strings.Join(ls, " | "))
+			}
+		})
+	}
+	if f := c.A.Func("toSMTPErr"); f != nil {
+		codeOK, msgOK := false, false
+		allInstrs(f, func(in ssa.Instruction) {
+			if fld, _, v := storedField(in); fld != nil {
+				switch fld.Name() {
+				case "Code":
+					if describe(v) == "textproto.Error.Code" {
+						codeOK = true
+					}
+				case "Message":
+					if describe(v) == "textproto.Error.Msg" {
+						msgOK = true
+					}
+				}
+			}
+		})
+		R.Ob("toSMTPErr/code copied", c.P.Pos(f.Pos()), codeOK, "SMTPError.Code is not the reply code")
+		R.Ob("toSMTPErr/message defaults to the reply text", c.P.Pos(f.Pos()), msgOK, "SMTPError.Message is not initialised from the reply text")
+		for _, site := range s.Find(f, "st:SMTPError.EnhancedCode") {
+			c.obFactMatch("enhanced code only when it parses", site, `^parseEnhancedCode\(.*\)#1 == nil$`, "enhanced code stored although parsing failed")
+		}
+		// when the enhanced code is split off, the message is what follows it (with the per-line repetitions removed)
+		for _, site := range s.Find(f, "st:SMTPError.EnhancedCode") {
+			site := site
+			c.obAccompanied("message without the enhanced code prefix", f, func(in ssa.Instruction) bool { return in == site }, []string{"st:SMTPError.Message"}, "enhanced code taken from the text but the message keeps it as a prefix")
+		}
+		nMsg := 0
+		for _, site := range s.Find(f, "st:SMTPError.Message") {
+			_, _, v := storedField(site)
+			d := describe(v)
+			if d == "textproto.Error.Msg" {
+				continue
+			}
+			nMsg++
+			ok := strings.Contains(d, `strings.SplitN(textproto.Error.Msg," ",2)[1]`) || strings.Contains(d, `strings.Cut(textproto.Error.Msg," ")#1`)
+			R.Ob(c.siteKey(site, "message is the text after the enhanced code"), c.P.InstrPos(site), ok, "SMTPError.Message becomes "+d)
+			c.obFactMatch("message cut only when the code parses", site, `^parseEnhancedCode\(.*\)#1 == nil$`, "message cut although the first word is not an enhanced code")
+		}
+		R.Ob("toSMTPErr/message separated from the enhanced code", c.P.Pos(f.Pos()), nMsg >= 1, "no store of the message without its enhanced code prefix")
+	}
+	if f := c.A.Func("toSMTPErr"); f != nil {
+		ok := false
+		allInstrs(f, func(in ssa.Instruction) {
+			if isStaticCall(in, "strings.ReplaceAll") {
+				cc := callCommon(in)
+				if strings.Contains(describe(cc.Args[1]), `"\n"`) && describe(cc.Args[2]) == `"\n"` {
+					ok = true
+				}
+			}
+		})
+		R.Ob("toSMTPErr/strips the code from every further line", c.P.Pos(f.Pos()), ok, "client no longer strips the repeated enhanced code")
+	}
 }
